@@ -1357,6 +1357,12 @@ func (in *Interp) zeroOf(st *State, t types.Type) Val {
 	case isByteSlice(t):
 		return in.newBuf(st, &BufObj{Origin: "nil", Len: Const(0)})
 	}
+	// var hdr [4]byte: a zeroed buffer of that length (sliced and filled like a make'd one)
+	if n, ok := isByteArray(t); ok {
+		v := in.newBuf(st, &BufObj{Origin: "make", Len: Const(n)})
+		st.bufs[v.ID].Extent = Const(0)
+		return v
+	}
 	if b, ok := t.Underlying().(*types.Basic); ok && b.Info()&types.IsBoolean != 0 {
 		return BoolV{"false"}
 	}
